@@ -591,6 +591,7 @@ pub fn run_alloc(thorough: bool, seed: u64, threads: usize, prop_cases: u32) -> 
                     let (n, start, len) = units[u];
                     for op in enum_ops(n, len) {
                         let c = ACase { n: n as u32, start: start as u32, len: len as u32, ops: vec![op] };
+                        crate::watch::tick();
                         match run_acase(&c) {
                             Ok(f) => st.note(&c, f),
                             Err(m) => {
